@@ -280,6 +280,12 @@ class ProgGen:
             for _ in range(1 + r2.below(2)):
                 body.insert(r2.below(len(body) + 1), r2.choice(head))
             self.stat('reimport-mid')
+        emitting = [k for k, l in enumerate(body) if l.endswith(';') and not l.startswith(('let ', 'import ')) and '"' not in l]
+        if emitting and r2.chance(1, 5):
+            # a remark that contains a bare CR followed by text that would be a statement: a comment runs to the end of the LINE
+            k = r2.choice(emitting)
+            body.insert(r2.below(len(body) + 1), r2.choice(['// disabled for now:\r', '# old:\r', '\t#\r']) + body[k])
+            self.stat('cr-in-remark')
         return ('\n'.join(head + body) + '\n').encode()
 
 
